@@ -134,6 +134,15 @@ def real_unit(unit, mods, pre_elaborated=False):
     return top
 
 
+def unit_port_order(sp, bp):
+    """The exported port names of a module made from a unit with scalar ports `sp` and bundle ports `bp`: the scalar ports in their
+    order, then each bundle port's leaves in the definition's order, joined by '_'."""
+    out = list(sp)
+    for name, bname in bp.items():
+        out += [refsem.flatname(name, *path) for path, _ in refsem.bundle_leaves({"bundles": BUNDLES}, bname)]
+    return out
+
+
 def judge(rec, label, case, make_real, refdesign, must_accept=True, iname="units_"):
     import hdl21 as h
 
@@ -159,6 +168,15 @@ def judge(rec, label, case, make_real, refdesign, must_accept=True, iname="units
         rec.violation(f"generator-package-unreadable:{case['gen']}", f"{label}: {e}", case=case)
         return
     rec.count("oracle.compared")
+    # the generated module lists the unit's ports in the unit's order, whatever the unit has been through before
+    if case.get("unit_elaborated_before") and case.get("unit_ports_in_order"):
+        want = list(case["unit_ports_in_order"])
+        top = [mm for mm in pkg.modules if mm.name.endswith(m.name)][-1]
+        got = [p_.signal for p_ in top.ports]
+        rec.count("ports.order-checked")
+        if got != want:
+            rec.violation(f"port-order-wrong:{case['gen']}", f"{label}: the generated module lists its ports as {got}; the unit's (flattened) ports are {want}",
+                          case=case, **{k: case.get(k) for k in ("unit", "bus", "bundle_port")})
     diffs = pkgread.compare(ref, obs)
     if diffs:
         # tolerate another naming scheme for the units, but keep their INDEX (the statement speaks of unit 0 .. n-1):
@@ -204,6 +222,7 @@ def run(ctx, rec):
 
                     pre = unit[0] == "mod" and [False, True, "below-failed-parent"][(n + len(a)) % 3]
                     case["unit_elaborated_before"] = pre
+                    case["unit_ports_in_order"] = unit_port_order(sp, bp)
 
                     def make(unit=unit, mods=mods, a=a, b=b, n=n, form=form, pre=pre):
                         u = real_unit(unit, mods, pre_elaborated=pre)
@@ -215,7 +234,7 @@ def run(ctx, rec):
         case = {"gen": "Wrapper", "unit": ulabel, "bundle_port": bool(bp)}
 
         for pre in ((False, True, "below-failed-parent") if unit[0] == "mod" else (False,)):
-            case = {"gen": "Wrapper", "unit": ulabel, "bundle_port": bool(bp), "unit_elaborated_before": pre}
+            case = {"gen": "Wrapper", "unit": ulabel, "bundle_port": bool(bp), "unit_elaborated_before": pre, "unit_ports_in_order": unit_port_order(sp, bp)}
 
             def makew(unit=unit, mods=mods, pre=pre):
                 w = Wrapper(real_unit(unit, mods, pre_elaborated=pre))
